@@ -130,6 +130,8 @@ func RichCRLs() []Obj {
 	return []Obj{
 		{Name: "built:rich-crl-subscriber", Kind: CRL, DER: BuildCRL(CRLSpec{V2: true, ThisUpdate: this, NextUpdate: &next, Entries: entries, CRLNumber: &num, AKI: true, ExtraExts: []*dt.Node{idpFull, freshest, aia}})},
 		{Name: "built:rich-crl-ca", Kind: CRL, DER: BuildCRL(CRLSpec{V2: true, ThisUpdate: this, NextUpdate: &nextLong, Form: GenZ, Entries: entries[:1], CRLNumber: &num, AKI: true, ExtraExts: []*dt.Node{idpCA}})},
+		{Name: "built:bare-crl", Kind: CRL, DER: BuildCRL(CRLSpec{V2: true, ThisUpdate: this, NextUpdate: &next, NoRevoked: true})},
+		{Name: "built:bare-crl-no-next", Kind: CRL, DER: BuildCRL(CRLSpec{V2: true, ThisUpdate: this, Form: GenZ, Entries: entries[2:]})},
 		{Name: "built:rich-crl-delta", Kind: CRL, DER: BuildCRL(CRLSpec{V2: true, ThisUpdate: this, NextUpdate: &next, NoRevoked: true, CRLNumber: &num, AKI: true, IDP: true, Delta: true})},
 	}
 }
